@@ -17,7 +17,7 @@ A_COMMON = [
     'A-verus: Verus 0.2026.09.13 + Z3 + the rustc front end are sound; machine integers are modelled exactly (every +, -, <<, cast is an overflow obligation).',
     'A-std: assumed specifications for std items without a vstd spec (contracts/prelude.rs): Option::unwrap_unchecked, <[T]>::get_unchecked(_mut), '
     'NonZeroU32::{MIN, checked_add} and value-extensionality, RefCell::{new,get_mut,borrow} and Ref deref (functional value only; the dynamic borrow flag is NOT modelled), '
-    'MaybeUninit::write, <u64 as Hash>::hash (a hasher is the sequence of words fed to it).',
+    'MaybeUninit::write, <u64 as Hash>::hash (a hasher is the sequence of words fed to it), std::slice::Iter::size_hint (exact).',
     'A-dataptr: DataPtr<T> method bodies (raw pointers, allocator) are outside Verus; their contracts over the ghost view cells(): Seq<Option<T>> '
     '(contracts/storage.vsp, transcribed from the # Safety sections) are assumed here and checked bounded by the Kani harnesses (thorough tier).',
     'A-transmute: `From<&Entity<A>> for &EntityAny` / `From<&EntityDirect<A>> for &EntityDirectAny` (mem::transmute of a repr(transparent) wrapper) keep their signature with the ASSUMED contract '
@@ -43,7 +43,7 @@ A_WORLD = [
     'Universality over world declarations is not claimed.',
     'R-world: the instantiated text is verified after the named rules of gv/worldgen.py (R-tag marker types because `struct A { data: StorageN<A, ..> }` is a cyclic self-reference for Verus; '
     'R-split of trait Archetype / World into acyclic layers with the default-method bodies verbatim; R-inherent; R-optmap; R-constpat; R-clone; R-priv; R-unchecked; R-implarg; R-bound). '
-    'Not extracted from the generated code: functions returning impl Iterator over raw-pointer iterators (iter, iter_mut), EcsEventIterator::size_hint, functions returning RefMut, Default impls, '
+    'Not extracted from the generated code: functions returning impl Iterator over raw-pointer iterators (iter, iter_mut), functions returning RefMut, Default impls, '
     'the generic forwarding TryFrom<&Entity<A>> / TryFrom<&mut ..> impls of the hidden __WorldSelectTotal enum, the macro_rules wrappers.',
     'A-std: core\'s reflexive `impl<T> From<T> for T` is the identity (axiom_into_reflexive in contracts/prelude.rs; used where generated code passes an already built Components struct through `impl Into<Components>`).',
 ]
